@@ -1,5 +1,6 @@
 """property id -> harness modules (each exposes cases(tier) -> [Case])"""
 REGISTRY = {
+    "C14": {"modules": ["harness.C14_mask"], "uncovered": ["timed / multiset / n-gram co-occurrence and tree vectorizers (same masking code pattern, not yet encoded)", "NgramVectorizer.nullify_mask (excluded by the property)"]},
     "C05": {"modules": ["harness.C05_vocab"], "uncovered": ["excluded_token_regex (regular expressions on symbolic strings are outside the encoding)", "second-stage n-gram pruning in NgramVectorizer / NgramCooccurrenceVectorizer (same prune_token_dictionary code, exercised through cls_ngram min_occ cases)", "totals above the IEEE bound, counts >= 2**24"]},
     "C01": {"modules": ["harness.C01_shape"], "uncovered": ["Histogram (covered under C20), KDE, Distribution (sklearn objects)", "Wasserstein family"]},
     "C02": {"modules": ["harness.C02_fit_transform"], "uncovered": []},
@@ -8,8 +9,8 @@ REGISTRY = {
     "C16": {"modules": ["harness.C16_lz"], "uncovered": ["murmurhash bit arithmetic (hash modelled as an arbitrary function; BV lemma planned)", "base_dictionary together with hashing", "the relabelling clause under injective hashing"]},
     "C19": {"modules": ["harness.C19_sliding"], "uncovered": ["window_sample='random'", "callable / changepoint function kernels", "position_velocity and gaussian_weight kernels", "index lists that are not strictly increasing (a full-length list is ignored by sliding_windows: `sample.shape[0] < width`)"]},
     "C09": {"modules": ["harness.C09_bpe"], "uncovered": []},
-    "C03": {"modules": ["harness.C03_cooc"], "uncovered": []},
-    "C04": {"modules": ["harness.C04_accumulator"], "uncovered": []},
+    "C03": {"modules": ["harness.C03_cooc", "harness.C03_class"], "uncovered": ["timed / multiset / n-gram drivers (token driver and class are encoded)", "variable window radii (np.power with a real exponent)", "float32 accumulation order", "timestamp float32 packing (IEEE lemma planned)"]},
+    "C04": {"modules": ["harness.C04_accumulator", "harness.C04_class"], "uncovered": ["timed / multiset / n-gram drivers", "real OS threads (schedule independence is argued through non-interference of chunk tasks)"]},
     "C18": {"modules": ["harness.C18_distances"],
             "uncovered": ["float32/float64 rounding of the distance values (Real arithmetic is used except in the IEEE hellinger lemma)",
                           "dimension > 3", "triangle inequality of hellinger (non-linear; attempted only in the thorough tier)",
